@@ -1,6 +1,10 @@
 """C07 generator: Generated/HabConsts.lean and Generated/HabFuns.lean from the CURRENT HAB sources and device database.
 
-Pure static reading (`ast`, `struct.calcsize` on format *literals*, `yaml.safe_load`); never imports spsdk.
+Pure static reading (`ast`, `yaml.safe_load`); never imports spsdk.  Everything is read BY VALUE (tools/extract/consteval.py): constants,
+enum tags and struct formats are evaluated at their use site (`0x2000` = `8 * 1024` = `SOME_NAME` = `cls.SIZE`), struct formats are emitted
+as their normalised field list (`"<7L"` = `"<LLLLLLL"` = `"<IIIIIII"`), tables the code only indexes are emitted sorted by key, and the
+functions handed to py2lean are first desugared (`a, b = divmod(x, k)`, tuple assignment, constant names folded to their values), so a
+behaviour-preserving respelling of the source leaves the generated text (or at least its meaning for the proofs) unchanged.
 
 HabConsts (namespace SpsdkVerif.Generated.HabConsts)
   * tag tables of SegTag / CmdTag / EnumCertFormat / EnumInsKey / EnumAuthDat / EnumEngine / EnumAlgorithm / EnumSRK / SecCommand,
@@ -24,6 +28,7 @@ import struct
 
 import yaml
 
+from consteval import ModuleEnv, NotConst, norm_struct
 from extract import REPO, emit, parse
 from py2lean import Env, FunSig, Untranslatable, find_function, module_int_consts, translate_function
 
@@ -71,19 +76,20 @@ def _getter(cls_node, name):
     return None
 
 
-def enum_members(tree, clsname):
+def enum_members(tree, clsname, menv=None):
+    """(member, tag) rows of a SpsdkEnum class, tags evaluated by value, sorted by member name (the code only looks members up)"""
     c = _cls(tree, clsname)
     out = []
     for st in c.body if c else []:
         if isinstance(st, ast.Assign) and len(st.targets) == 1 and isinstance(st.targets[0], ast.Name) \
                 and isinstance(st.value, ast.Tuple) and st.value.elts:
             try:
-                v = ast.literal_eval(st.value.elts[0])
-            except (ValueError, SyntaxError):
+                v = menv.eval(st.value.elts[0], cls=clsname) if menv is not None else ast.literal_eval(st.value.elts[0])
+            except (NotConst, ValueError, SyntaxError):
                 continue
-            if isinstance(v, int):
+            if isinstance(v, int) and not isinstance(v, bool):
                 out.append((st.targets[0].id, v))
-    return out
+    return sorted(out)
 
 
 def _dotted(node):
@@ -109,7 +115,7 @@ def _argname(a):
 
 
 def pack_calls(fn):
-    """[(format literal or NAME, [argument names])] for every pack(...) in fn, in source order"""
+    """[(format expression node, [argument names])] for every pack(...) in fn, in source order"""
     out = []
     calls = [n for n in ast.walk(fn) if isinstance(n, ast.Call)] if fn else []
     calls.sort(key=lambda n: (n.lineno, n.col_offset))
@@ -117,14 +123,12 @@ def pack_calls(fn):
         f = n.func
         name = f.attr if isinstance(f, ast.Attribute) else f.id if isinstance(f, ast.Name) else None
         if name == "pack" and n.args:
-            a0 = n.args[0]
-            fmt = a0.value if isinstance(a0, ast.Constant) else _dotted(a0)
-            out.append((fmt, [_argname(a) for a in n.args[1:]]))
+            out.append((n.args[0], [_argname(a) for a in n.args[1:]]))
     return out
 
 
 def unpack_calls(fn):
-    """[(format, [target names], offset expr)] for `targets = unpack_from(fmt, data, off)` in fn"""
+    """[(format expression node, [target names], offset expr)] for `targets = unpack_from(fmt, data, off)` in fn"""
     out = []
     for st in ast.walk(fn) if fn else []:
         if isinstance(st, ast.Assign) and isinstance(st.value, (ast.Call, ast.Subscript)):
@@ -134,8 +138,7 @@ def unpack_calls(fn):
             f = call.func
             name = f.attr if isinstance(f, ast.Attribute) else f.id if isinstance(f, ast.Name) else None
             if name in ("unpack_from", "unpack") and call.args:
-                a0 = call.args[0]
-                fmt = a0.value if isinstance(a0, ast.Constant) else _dotted(a0)
+                fmt = call.args[0]
                 t = st.targets[0]
                 names = [_argname(e) for e in t.elts] if isinstance(t, (ast.Tuple, ast.List)) else [_argname(t)]
                 off = ast.unparse(call.args[2]) if len(call.args) > 2 else "0"
@@ -285,7 +288,7 @@ def device_rows():
                 rows.append((name, dev, ivt, ils))
             except Exception as exc:  # noqa: BLE001
                 errors.append(f"{name}/{dev}: {type(exc).__name__} {exc}")
-    return rows, errors
+    return sorted(rows), errors   # looked up by (family, device) only
 
 
 # ------------------------------------------------------------------------------------------------ HabConsts
@@ -299,29 +302,51 @@ def gen_HabConsts():
             t[rel] = ast.parse("")
             meta["errors"].append(f"{rel}: {exc}")
     out = ["namespace SpsdkVerif.Generated.HabConsts", ""]
+    E = {rel: ModuleEnv(tree) for rel, tree in t.items()}     # by-value readers, one per module
+    rel_of = {id(tree): rel for rel, tree in t.items()}
 
     def table(name, rows, src):
         out.append(f"/-- `{src}` -/")
         out.append(f"def {name} : List (String × Nat) := {ltable(rows)}")
         meta[name] = dict(rows)
 
-    table("segTags", enum_members(t[HDR], "SegTag"), HDR + "::SegTag")
-    table("cmdTags", enum_members(t[HDR], "CmdTag"), HDR + "::CmdTag")
-    table("certFormats", enum_members(t[CMD], "EnumCertFormat"), CMD + "::EnumCertFormat")
-    table("insKeyFlags", enum_members(t[CMD], "EnumInsKey"), CMD + "::EnumInsKey")
-    table("authDatFlags", enum_members(t[CMD], "EnumAuthDat"), CMD + "::EnumAuthDat")
-    table("engines", enum_members(t[CMD], "EnumEngine"), CMD + "::EnumEngine")
-    table("itms", enum_members(t[CMD], "EnumItm"), CMD + "::EnumItm")
-    table("algorithms", enum_members(t[SEC], "EnumAlgorithm"), SEC + "::EnumAlgorithm")
-    table("srkTags", enum_members(t[SEC], "EnumSRK"), SEC + "::EnumSRK")
-    table("secCommands", enum_members(t[HENUM], "SecCommand"), HENUM + "::SecCommand")
-    table("habSegments", enum_members(t[HSEG], "HabSegment"), HSEG + "::HabSegment")
+    table("segTags", enum_members(t[HDR], "SegTag", E[HDR]), HDR + "::SegTag")
+    table("cmdTags", enum_members(t[HDR], "CmdTag", E[HDR]), HDR + "::CmdTag")
+    table("certFormats", enum_members(t[CMD], "EnumCertFormat", E[CMD]), CMD + "::EnumCertFormat")
+    table("insKeyFlags", enum_members(t[CMD], "EnumInsKey", E[CMD]), CMD + "::EnumInsKey")
+    table("authDatFlags", enum_members(t[CMD], "EnumAuthDat", E[CMD]), CMD + "::EnumAuthDat")
+    table("engines", enum_members(t[CMD], "EnumEngine", E[CMD]), CMD + "::EnumEngine")
+    table("itms", enum_members(t[CMD], "EnumItm", E[CMD]), CMD + "::EnumItm")
+    table("algorithms", enum_members(t[SEC], "EnumAlgorithm", E[SEC]), SEC + "::EnumAlgorithm")
+    table("srkTags", enum_members(t[SEC], "EnumSRK", E[SEC]), SEC + "::EnumSRK")
+    table("secCommands", enum_members(t[HENUM], "SecCommand", E[HENUM]), HENUM + "::SecCommand")
+    table("habSegments", enum_members(t[HSEG], "HabSegment", E[HSEG]), HSEG + "::HabSegment")
     out.append("")
 
-    # ---- struct formats and field orders
+    # ---- struct formats (normalised field lists) and field orders
+    # formats of classes defined in another module (`Header.FORMAT` used from commands.py …): looked up by class name
+    foreign = {}
+    for rel in meta["sources"]:
+        for cname in E[rel].classes:
+            foreign.setdefault(cname, rel)
+
+    def const_of(rel, cls, attr):
+        """class constant by value (inherited through bases of the module), None when it is not a constant"""
+        try:
+            return E[rel].cls(cls).value(attr)
+        except NotConst:
+            return None
+
+    def norm(v):
+        if not isinstance(v, str):
+            return "?"
+        try:
+            return norm_struct(v)
+        except Exception:  # noqa: BLE001
+            return "?"
+
     def fmt_of(tree, cls, attr="FORMAT"):
-        v = lit(class_attr(tree, cls, attr))
-        return v if isinstance(v, str) else "?"
+        return norm(const_of(rel_of[id(tree)], cls, attr))
 
     fmts = {
         "headerFormat": fmt_of(t[HDR], "Header"),
@@ -333,10 +358,18 @@ def gen_HabConsts():
         out.append(f"def {k} : String := {lstr(v)}")
     meta["formats"] = dict(fmts)
 
-    def resolve(fmt, cls_tree, cls):
-        if isinstance(fmt, str) and (fmt.endswith(".FORMAT") or fmt == "FORMAT"):
-            return fmt_of(cls_tree, cls)
-        return fmt if isinstance(fmt, str) else "?"
+    def resolve(node, cls_tree, cls):
+        """the format handed to pack()/unpack_from(), evaluated at the use site (literal, `FORMAT`, `cls.FORMAT`, `Other.FORMAT`, …)"""
+        rel = rel_of[id(cls_tree)]
+        try:
+            return norm(E[rel].eval(node, cls=cls))
+        except NotConst:
+            d = _dotted(node)
+            if d and "." in d:
+                base, attr = d.rsplit(".", 1)
+                if base in foreign:
+                    return norm(const_of(foreign[base], base, attr))
+            return "?"
 
     def packs(name, tree, cls, fn="export"):
         c = _cls(tree, cls)
@@ -397,93 +430,157 @@ def gen_HabConsts():
         xsize_src = ast.unparse(rets[-1].value).replace("self.", "") if rets else ""
     meta["segXmcdSizeExpr"] = xsize_src  # informational only ('' = inherits BaseSegment.size = 0)
 
-    # ---- integer constants
-    consts = {}
-    consts.update({k: v for k, v in module_int_consts(t[HSEG]).items() if "." in k})
-    consts.update({k: v for k, v in module_int_consts(t[IMG]).items() if k.startswith("BootImgRT.")})
-    consts.update({k: v for k, v in module_int_consts(t[SEC]).items() if k.startswith("MAC.")})
-    consts.update({k: v for k, v in module_int_consts(t[HCMD]).items() if "." in k})
-    try:
-        header_size = struct.calcsize(fmts["headerFormat"])
-        ivt_size = header_size + struct.calcsize(fmts["ivt2Format"])
-        bdt_struct = struct.calcsize(fmts["bdtFormat"])
-        xmcd_hdr = struct.calcsize(fmts["xmcdHeaderFormat"])
-    except struct.error as exc:
-        header_size = ivt_size = bdt_struct = xmcd_hdr = 0
-        meta["errors"].append(f"calcsize: {exc}")
+    # ---- integer constants (by value)
+    def size_of(fmt):
+        try:
+            return struct.calcsize(fmt)
+        except struct.error as exc:
+            meta["errors"].append(f"calcsize {fmt!r}: {exc}")
+            return None
+
+    header_size = size_of(fmts["headerFormat"])
+    ivt_struct = size_of(fmts["ivt2Format"])
     wanted = [
-        ("ivtVersion", consts.get("IvtHabSegment.IVT_VERSION")),
-        ("ivtSegOffset", consts.get("IvtHabSegment.OFFSET")),
-        ("xmcdSegOffset", consts.get("XmcdHabSegment.OFFSET")),
-        ("csfSize", consts.get("CsfHabSegment.CSF_SIZE")),
-        ("keyblobSize", consts.get("CsfHabSegment.KEYBLOB_SIZE")),
-        ("bdtSize", consts.get("BootImgRT.BDT_SIZE")),
-        ("aesBlkLen", consts.get("MAC.AES128_BLK_LEN")),
+        ("ivtVersion", const_of(HSEG, "IvtHabSegment", "IVT_VERSION")),
+        ("ivtSegOffset", const_of(HSEG, "IvtHabSegment", "OFFSET")),
+        ("xmcdSegOffset", const_of(HSEG, "XmcdHabSegment", "OFFSET")),
+        ("csfSize", const_of(HSEG, "CsfHabSegment", "CSF_SIZE")),
+        ("keyblobSize", const_of(HSEG, "CsfHabSegment", "KEYBLOB_SIZE")),
+        ("bdtSize", const_of(IMG, "BootImgRT", "BDT_SIZE")),
+        ("aesBlkLen", const_of(SEC, "MAC", "AES128_BLK_LEN")),
         ("headerSize", header_size),
-        ("ivt2Size", ivt_size),
-        ("bdtStructSize", bdt_struct),
-        ("xmcdHeaderSize", xmcd_hdr),
-        ("xmcdHeaderTag", lit(class_attr(t[SEG], "XMCDHeader", "TAG"))),
+        ("ivt2Size", None if header_size is None or ivt_struct is None else header_size + ivt_struct),
+        ("bdtStructSize", size_of(fmts["bdtFormat"])),
+        ("xmcdHeaderSize", size_of(fmts["xmcdHeaderFormat"])),
+        ("xmcdHeaderTag", const_of(SEG, "XMCDHeader", "TAG")),
     ]
     for k, v in wanted:
-        if not isinstance(v, int):
+        if not isinstance(v, int) or isinstance(v, bool):
             meta["errors"].append(f"constant {k} not found")
             v = 0
         out.append(f"def {k} : Nat := {v}")
         meta[k] = v
-    # known application offsets probed by AppHabSegment.parse
+
+    def ev(rel, node, cls=None, default=None):
+        try:
+            return E[rel].eval(node, cls=cls)
+        except NotConst:
+            return default
+
+    def int_list(v):
+        return isinstance(v, (list, tuple)) and len(v) > 0 and all(isinstance(x, int) and not isinstance(x, bool) for x in v)
+
+    # known application offsets probed by AppHabSegment.parse, in probing order: the table the `for offset in …` loop iterates
+    # (an inline literal, a local, a class or a module constant)
     known = []
     app_parse = _fun(_cls(t[HSEG], "AppHabSegment"), "parse")
+    app_locals = {}
     for n in ast.walk(app_parse) if app_parse else []:
-        if isinstance(n, ast.Assign) and isinstance(n.targets[0], ast.Name) and n.targets[0].id == "known_offsets":
-            known = lit(n.value, [])
+        if isinstance(n, ast.Assign) and len(n.targets) == 1 and isinstance(n.targets[0], ast.Name):
+            v = ev(HSEG, n.value, "AppHabSegment")
+            if v is not None:
+                app_locals.setdefault(n.targets[0].id, v)
+    for n in sorted((x for x in ast.walk(app_parse) if isinstance(x, ast.For)), key=lambda x: x.lineno) if app_parse else []:
+        try:
+            v = E[HSEG].eval(n.iter, cls="AppHabSegment", local=app_locals)
+        except NotConst:
+            continue
+        if int_list(v):
+            known = list(v)
+            break
     out.append(f"def knownAppOffsets : List Nat := {lnats(known)}")
     meta["knownAppOffsets"] = known
-    # reset-vector window of get_app_offset: `app_address - X`
+    # reset-vector window of get_app_offset: `range_start = app_address - X`
     win = 0
     for n in ast.walk(app_parse) if app_parse else []:
         if isinstance(n, ast.Assign) and isinstance(n.targets[0], ast.Name) and n.targets[0].id == "range_start" \
                 and isinstance(n.value, ast.BinOp) and isinstance(n.value.op, ast.Sub):
-            win = lit(n.value.right, 0)
+            try:
+                w = E[HSEG].eval(n.value.right, cls="AppHabSegment", local=app_locals)
+            except NotConst:
+                w = None
+            win = w if isinstance(w, int) else 0
     out.append(f"def resetVectorWindow : Nat := {win}")
     meta["resetVectorWindow"] = win
     # need_uid: engine == EnumEngine.OCOTP and bool(features & MASK)
     mask, eng = 0, ""
     nu = _fun(_cls(t[CMD], "CmdUnlockAbstract"), "need_uid")
     for n in ast.walk(nu) if nu else []:
-        if isinstance(n, ast.BinOp) and isinstance(n.op, ast.BitAnd) and isinstance(n.right, ast.Constant):
-            mask = n.right.value
-        if isinstance(n, ast.Compare) and _dotted(n.comparators[0]) and _dotted(n.comparators[0]).startswith("EnumEngine."):
-            eng = _dotted(n.comparators[0]).split(".", 1)[1]
+        if isinstance(n, ast.BinOp) and isinstance(n.op, ast.BitAnd):
+            for side in (n.right, n.left):
+                v = ev(CMD, side, "CmdUnlockAbstract")
+                if isinstance(v, int) and not isinstance(v, bool):
+                    mask = v
+                    break
+        if isinstance(n, ast.Compare):
+            for side in [n.left] + list(n.comparators):
+                d = _dotted(side)
+                if d and d.startswith("EnumEngine."):
+                    eng = d.split(".", 1)[1]
     out.append(f"def needUidMask : Nat := {mask}")
     out.append(f"def needUidEngine : String := {lstr(eng)}")
     meta["needUid"] = [eng, mask]
-    # _get_flags constants
+    # _get_flags constants: every integer a `return` can produce (conditional expressions give both arms)
     gf = _fun(_cls(t[HCON], "HabContainer"), "_get_flags")
-    gfc = [n.value.value if isinstance(n.value, ast.Constant) else [lit(n.value.body), lit(n.value.orelse)]
-           for n in ast.walk(gf) if isinstance(n, ast.Return)] if gf else []
+
+    def ret_values(node):
+        if isinstance(node, ast.IfExp):
+            return ret_values(node.body) + ret_values(node.orelse)
+        v = ev(HCON, node, "HabContainer")
+        return [v] if isinstance(v, int) and not isinstance(v, bool) else []
+
     flat = []
-    for v in gfc:
-        flat += v if isinstance(v, list) else [v]
-    flat = [v for v in flat if isinstance(v, int)]
+    gf_locals = {}
+    for n in ast.walk(gf) if gf else []:
+        if isinstance(n, ast.Assign) and len(n.targets) == 1 and isinstance(n.targets[0], ast.Name):
+            gf_locals.setdefault(n.targets[0].id, []).extend(ret_values(n.value))
+    for n in ast.walk(gf) if gf else []:
+        if isinstance(n, ast.Return) and n.value is not None:
+            if isinstance(n.value, ast.Name) and n.value.id in gf_locals:
+                flat += gf_locals[n.value.id]
+            else:
+                flat += ret_values(n.value)
     flat = sorted(set(flat))
     out.append(f"def parseFlags : List Nat := {lnats(flat)}   -- values _get_flags can return")
     meta["parseFlags"] = flat
-    # SEGMENTS_MAPPING order and _get_signed_blocks groups
+
+    # SEGMENTS_MAPPING order (the container iterates it) and the groups _get_signed_blocks iterates
+    def member(e):
+        return (_dotted(e) or "?").split(".")[-1]
+
+    def find_assign(scopes, name):
+        """value node of `name = …` in the first scope (function node / module) that assigns it"""
+        for scope in scopes:
+            for n in ast.walk(scope) if scope is not None else []:
+                if isinstance(n, (ast.Assign, ast.AnnAssign)):
+                    tgt = n.targets[0] if isinstance(n, ast.Assign) else n.target
+                    if isinstance(tgt, ast.Name) and tgt.id == name and n.value is not None:
+                        return n.value
+        return None
+
     order = []
-    for n in ast.walk(t[HSEG]):
-        if isinstance(n, (ast.Assign, ast.AnnAssign)):
-            tgt = n.targets[0] if isinstance(n, ast.Assign) else n.target
-            if isinstance(tgt, ast.Name) and tgt.id == "SEGMENTS_MAPPING" and isinstance(n.value, ast.Dict):
-                order = [(_dotted(k) or "?").split(".")[-1] for k in n.value.keys]
+    sm = find_assign([t[HSEG]], "SEGMENTS_MAPPING")
+    if isinstance(sm, ast.Dict):
+        order = [member(k) for k in sm.keys]
     out.append(f"def segmentsMappingOrder : List String := {lstrs(order)}")
     meta["segmentsMappingOrder"] = order
     groups = []
     sb = _fun(_cls(t[HCON], "HabContainer"), "_get_signed_blocks")
-    for n in ast.walk(sb) if sb else []:
-        if isinstance(n, ast.Assign) and isinstance(n.targets[0], ast.Name) and n.targets[0].id == "segment_blocks" \
-                and isinstance(n.value, ast.List):
-            groups = [[(_dotted(e) or "?").split(".")[-1] for e in g.elts] for g in n.value.elts if isinstance(g, ast.List)]
+
+    def group_list(node, depth=0):
+        """a list/tuple literal of lists/tuples of HabSegment members; a Name/Attribute is resolved to its assignment"""
+        if isinstance(node, (ast.List, ast.Tuple)) and node.elts and all(isinstance(g, (ast.List, ast.Tuple)) for g in node.elts):
+            return [[member(e) for e in g.elts] for g in node.elts]
+        d = _dotted(node)
+        if d and depth < 3:
+            return group_list(find_assign([sb, _cls(t[HCON], "HabContainer"), t[HCON]], d.split(".")[-1]), depth + 1)
+        return None
+
+    for n in sorted((x for x in ast.walk(sb) if isinstance(x, ast.For)), key=lambda x: x.lineno) if sb else []:
+        g = group_list(n.iter)
+        if g:
+            groups = g
+            break
     out.append("def signedBlockGroups : List (List String) := [" + ", ".join(lstrs(g) for g in groups) + "]")
     meta["signedBlockGroups"] = groups
     # which CmdAuthData (by position) is CSF / data / decrypt
@@ -491,9 +588,13 @@ def gen_HabConsts():
     for nm in ("get_authenticate_csf_cmd", "get_authenticate_data_cmd", "get_decrypt_data_cmd"):
         f = _fun(_cls(t[HSEG], "CsfHabSegment"), nm)
         v = None
-        for n in ast.walk(f) if f else []:
-            if isinstance(n, ast.Subscript) and isinstance(n.value, ast.Name) and n.value.id == "commands":
-                v = lit(n.slice)
+        subs = sorted((n for n in ast.walk(f) if isinstance(n, ast.Subscript) and isinstance(n.ctx, ast.Load)),
+                      key=lambda n: (n.lineno, n.col_offset)) if f else []
+        for n in subs:   # the position taken from the list of CmdAuthData commands (`<list>[k]`, k read by value)
+            k = ev(HSEG, n.slice, "CsfHabSegment") if not isinstance(n.slice, ast.Slice) else None
+            if isinstance(k, int) and not isinstance(k, bool):
+                v = k
+                break
         idx.append(v if isinstance(v, int) else 99)
     out.append(f"def authCmdIndex : List Nat := {lnats(idx)}   -- [authenticate CSF, authenticate data, decrypt data]")
     meta["authCmdIndex"] = idx
@@ -502,7 +603,9 @@ def gen_HabConsts():
     ecc_rows = []
     if isinstance(ecc, ast.Dict):
         for k, v in zip(ecc.keys, ecc.values):
-            ecc_rows.append(((_dotted(k) or "?").split(".")[-1], lit(v, 0)))
+            val = ev(SEC, v, "SrkItemEcc")
+            ecc_rows.append((member(k), val if isinstance(val, int) else 0))
+    ecc_rows.sort()   # the code only indexes this table
     table("eccKeyTypes", ecc_rows, SEC + "::SrkItemEcc.ECC_KEY_TYPE")
     out.append("")
 
@@ -584,6 +687,109 @@ def _assign_to_return(stmts, target_src):
     return out
 
 
+def _names(node, ctx=None):
+    return {n.id for n in ast.walk(node) if isinstance(n, ast.Name) and (ctx is None or isinstance(n.ctx, ctx))}
+
+
+def _pure(node):
+    return not any(isinstance(n, (ast.Call, ast.NamedExpr, ast.Await, ast.Yield, ast.YieldFrom)) for n in ast.walk(node))
+
+
+class _Desugar(ast.NodeTransformer):
+    """Normalise statement forms py2lean has no case for into the ones it has (same values, evaluation order kept):
+         q, r = divmod(x, k)      ->  q = x // k; r = x % k        (through temporaries when x / k are impure or mention q / r)
+         a, b = e1, e2            ->  _t0 = e1; _t1 = e2; a = _t0; b = _t1
+         divmod(x, k)[0] / [1]    ->  x // k / x % k
+       Anything else is left alone (py2lean then decides)."""
+
+    def __init__(self):
+        self.n = 0
+
+    def _tmp(self):
+        self.n += 1
+        return f"dsg_{self.n}"
+
+    @staticmethod
+    def _is_divmod(node):
+        return isinstance(node, ast.Call) and isinstance(node.func, ast.Name) and node.func.id == "divmod" \
+            and len(node.args) == 2 and not node.keywords
+
+    def visit_Subscript(self, node):
+        self.generic_visit(node)
+        if self._is_divmod(node.value) and isinstance(node.slice, ast.Constant) and node.slice.value in (0, 1) \
+                and not isinstance(node.slice.value, bool):
+            x, k = node.value.args
+            return ast.copy_location(ast.BinOp(left=x, op=ast.FloorDiv() if node.slice.value == 0 else ast.Mod(), right=k), node)
+        return node
+
+    def _assign(self, tgt, val, like):
+        return ast.copy_location(ast.Assign(targets=[tgt], value=val), like)
+
+    def _split(self, s):
+        if not (isinstance(s, ast.Assign) and len(s.targets) == 1 and isinstance(s.targets[0], (ast.Tuple, ast.List))):
+            return [s]
+        tg = s.targets[0].elts
+        if not all(isinstance(e, ast.Name) for e in tg):
+            return [s]
+        load = lambda name: ast.Name(id=name, ctx=ast.Load())  # noqa: E731
+        if self._is_divmod(s.value) and len(tg) == 2:
+            x, k = s.value.args
+            pre = []
+            if not (_pure(x) and _pure(k)) or ({e.id for e in tg} & (_names(x) | _names(k))):
+                tx, tk = self._tmp(), self._tmp()
+                pre = [self._assign(ast.Name(id=tx, ctx=ast.Store()), x, s), self._assign(ast.Name(id=tk, ctx=ast.Store()), k, s)]
+                x, k = load(tx), load(tk)
+            return pre + [self._assign(tg[0], ast.BinOp(left=copy.deepcopy(x), op=ast.FloorDiv(), right=copy.deepcopy(k)), s),
+                          self._assign(tg[1], ast.BinOp(left=copy.deepcopy(x), op=ast.Mod(), right=copy.deepcopy(k)), s)]
+        if isinstance(s.value, (ast.Tuple, ast.List)) and len(s.value.elts) == len(tg) \
+                and not any(isinstance(e, ast.Starred) for e in s.value.elts):
+            tmps = [self._tmp() for _ in tg]
+            return [self._assign(ast.Name(id=tm, ctx=ast.Store()), v, s) for tm, v in zip(tmps, s.value.elts)] + \
+                   [self._assign(e, load(tm), s) for e, tm in zip(tg, tmps)]
+        return [s]
+
+    def generic_visit(self, node):
+        super().generic_visit(node)
+        for field in ("body", "orelse", "finalbody"):
+            stmts = getattr(node, field, None)
+            if isinstance(stmts, list) and stmts and all(isinstance(x, ast.stmt) for x in stmts):
+                flat = []
+                for x in stmts:
+                    flat += self._split(x)
+                setattr(node, field, flat)
+        return node
+
+
+class _FoldConsts(ast.NodeTransformer):
+    """replace every sub-expression that is an integer CONSTANT of the source (literal arithmetic, module / class constants through
+    `NAME`, `Cls.NAME`, `self.NAME`, `cls.NAME`, `calcsize(FORMAT)` …) by its value, so that the translation does not depend on how
+    the constant is spelled.  Names bound inside the function (parameters, locals) are never constants."""
+
+    def __init__(self, menv, cls, bound):
+        self.menv, self.cls, self.bound = menv, cls, bound
+
+    def visit(self, node):
+        if isinstance(node, ast.expr) and not isinstance(node, ast.Constant) \
+                and isinstance(getattr(node, "ctx", ast.Load()), ast.Load) and not (_names(node) & self.bound):
+            try:
+                v = self.menv.eval(node, cls=self.cls)
+            except Exception:  # noqa: BLE001  (NotConst and anything a partial evaluation can raise)
+                v = None
+            if isinstance(v, int) and not isinstance(v, bool):
+                return ast.copy_location(ast.Constant(value=v), node)
+        return self.generic_visit(node)
+
+
+def normalise_function(fn, menv=None, cls=None):
+    """desugar + fold constants; returns a new FunctionDef"""
+    fn = _Desugar().visit(copy.deepcopy(fn))
+    if menv is not None:
+        bound = ({a.arg for a in fn.args.args} | _names(fn, ast.Store)) - {"self", "cls"}
+        body = [_FoldConsts(menv, cls, bound).visit(s) for s in fn.body]
+        fn.body = body
+    return ast.fix_missing_locations(fn)
+
+
 def gen_HabFuns():
     meta = {"functions": {}, "errors": []}
     trees = {}
@@ -597,10 +803,11 @@ def gen_HabFuns():
     for rel in (HSEG, IMG, HCMD):
         if trees[rel] is not None:
             env.consts.update({k: v for k, v in module_int_consts(trees[rel]).items() if "." in k})
+    menvs = {rel: ModuleEnv(tree) for rel, tree in trees.items() if tree is not None}
     # sizes that module_int_consts cannot fold (calcsize)
     try:
-        hf = lit(class_attr(trees[HDR], "Header", "FORMAT"))
-        iv = lit(class_attr(trees[SEG], "SegIVT2", "FORMAT"))
+        hf = menvs[HDR].cls("Header").value("FORMAT")
+        iv = menvs[SEG].cls("SegIVT2").value("FORMAT")
         env.consts["Header.SIZE"] = struct.calcsize(hf)
         env.consts["CmdHeader.SIZE"] = struct.calcsize(hf)
         env.consts["SegIVT2.SIZE"] = struct.calcsize(hf) + struct.calcsize(iv)
@@ -614,13 +821,15 @@ def gen_HabFuns():
             fn = build()
             if fn is None:
                 raise Untranslatable("source construct not found")
+            rel, _, qual = source.partition("::")
+            fn = normalise_function(fn, menvs.get(rel), qual.split(".")[0].split(" ")[0] or None)
             text, sig = translate_function(fn, lean, env, None, ret)
             env.funs[lean] = sig
             out.append(f"/-- translated from `{source}` -/")
             out.append(text)
             meta["functions"][lean] = {"mode": "translated", "source": source, "params": sig.params, "ret": sig.ret}
             return sig
-        except (Untranslatable, AttributeError, IndexError, TypeError) as exc:
+        except (Untranslatable, AttributeError, IndexError, TypeError, KeyError, ValueError, RecursionError) as exc:
             out.append(f"-- untranslatable: {source}: {exc}")
             args = " ".join(f"({p} : Int)" for p in params_fallback)
             out.append(f"def {lean} {args} : PyRes {ret} := .error .other\n")
